@@ -59,6 +59,18 @@ Definition exact_move (me adm : N) (prev : cobs) (o : ccop) (ob : cobs) : bool :
   | Err _ => false
   end.
 
+(* what an accepted step leaves of the record it names: an initiation leaves it open, a commit committed, a cancel or a
+   delete gone (whatever the spelling of the id in the request was) *)
+Definition has_rec (l : list (N * ccrec)) (id : N) : bool := existsb (fun p => N.eqb (fst p) id) l.
+Definition record_after (o : ccop) (ob : cobs) : bool :=
+  match o with
+  | OFromCustomer _ id _ _ _ _ _ | OFromAdmin _ id _ _ _ _ _ _ => N.eqb (o_phase ob id) 1
+  | OCommitFrom id => N.eqb (o_phase ob id) 2
+  | OCancelFrom id | ODeleteFrom id => N.eqb (o_phase ob id) 0
+  | OCreateTo id _ _ => has_rec (co_to ob) id
+  | ODeleteTo id => negb (has_rec (co_to ob) id)
+  end.
+
 Fixpoint p_one (me adm : N) (prev : cobs) (os : list ccop) (steps : list (option err * cobs)) : bool :=
   match os, steps with
   | o :: r, (e, ob) :: t =>
@@ -66,7 +78,7 @@ Fixpoint p_one (me adm : N) (prev : cobs) (os : list ccop) (steps : list (option
      | Some _ => same_obs prev ob                                  (* rejected: no effect *)
      | None => (o_spend ob + o_gtot ob =? o_spend prev + o_gtot prev) &&   (* no units created or destroyed *)
                forallb (fun p => legalb (o_phase prev (fst p)) (o_phase ob (fst p))) (co_from prev ++ co_from ob) &&
-               forallb (fun p => 0 <=? snd p) (co_bal ob) && exact_move me adm prev o ob
+               forallb (fun p => 0 <=? snd p) (co_bal ob) && exact_move me adm prev o ob && record_after o ob
      end) && p_one me adm ob r t
   | _, _ => true
   end.
